@@ -6,7 +6,7 @@ SAVE stack.  Every history is executed on the real assembler; every statement is
 whose value is exported in a trailer table, every data statement emits unique marker bytes whose
 (segment, address) is read back from the code file.
 """
-import itertools, struct
+import itertools, struct, re
 from .. import core
 from ..fmt import pfile
 
@@ -325,13 +325,39 @@ def extra_cases():
             for att in (0, 1):
                 for word in ('dc.w $1234', 'dc.l $12345678', 'move.w d0,d1'):
                     yield {'k': 'x', 'sub': 'pad', 'ph': ph, 'nb': nb, 'att': att, 'word': word}
+    # (z) where a segment starts is a matter of the selected target alone: the same with and without another target selected before
+    for a in ('8051', 'atmega8', '68000', 'z80', '16c84'):
+        for b in ('f3850', 'sx20', '16c54', 'msm5054', 'hd614023', 'msm5840', '8051', '16c84', 'atmega8', 'st6210', '8048', 'z8601'):
+            for seg in ('code', 'data'):
+                yield {'k': 'x', 'sub': 'segstart', 'a': a, 'b': b, 'seg': seg}
     for org in (0x200, 0x41):
         for mid in ('segdata', 'cpu', 'segdata+cpu', 'none'):
             for first in ('org', 'org+res'):
                 yield {'k': 'x', 'sub': 'cpuopt', 'org': org, 'mid': mid, 'first': first}
 
 
+def ev_segstart(case):
+    vals = []
+    for first in (False, True):
+        l = (['\tcpu ' + case['a']] if first else []) + ['\tcpu ' + case['b'], '\tsegment ' + case['seg'], 'lab:']
+        core.fresh()
+        core.put('a.asm', '\n'.join(l) + '\n')
+        o = core.run('asl', ['-q', '-g', 'map', 'a.asm'])
+        ck = core.crashkind(o)
+        if ck:
+            return core.R(False, ck, 'extra/crash/' + ck, '%s on %s' % (ck, ' / '.join(x.strip() for x in l)), transitions=2)
+        if o.rc != 0:
+            return core.R(True, 'segstart-not-applicable', nontrivial=False, transitions=2)      # (this target has no such segment)
+        m = re.search(r'(?mi)^LAB\s+Int\s+([0-9A-F]+)', (core.get('a.map') or b'').decode('latin-1'))
+        vals.append(int(m.group(1), 16) if m else None)
+    if vals[0] != vals[1]:
+        return core.R(False, 'segstart', 'extra/segstart/%s-%s' % (case['b'], case['seg']), 'segment %s of %s starts at %s, but at %s when `cpu %s` stood in front' % (case['seg'], case['b'], vals[0], vals[1], case['a']), transitions=2)
+    return core.R(True, 'extra-ok', states=['x:segstart:%s:%s' % (case['b'], vals[0])], transitions=2)
+
+
 def ev_extra(case):
+    if case['sub'] == 'segstart':
+        return ev_segstart(case)
     core.fresh()
     if case['sub'] == 'pad':
         load = 0x1000
